@@ -182,6 +182,8 @@ func checkC01(c *Ctx) {
 	checkC01ReceiverReassigned(c)
 	checkC01LexTerminates(c)
 	checkC01Edges(c)
+	checkC01SignalsInExpressions(c)
+	checkC01AliasesAfterShrink(c)
 
 	c.Set("exhaustive", true)
 	c.Set("bounds", map[string]any{"MaxDepth": maxDepth})
